@@ -9,7 +9,9 @@ import (
 	"errors"
 	"fmt"
 	"io"
+	"os"
 	"regexp"
+	"sort"
 	"runtime/pprof"
 	"strconv"
 	"strings"
@@ -81,6 +83,8 @@ type script struct {
 	Obs   [][2]int `json:"obs,omitempty"`
 	Leak  int      `json:"leak"`
 	Notes []string `json:"notes,omitempty"`
+	// a chain built for this run (iid >= 14): ids of its members, in order
+	Members []int `json:"members,omitempty"`
 
 	nSync, nAsync int
 }
@@ -94,6 +98,7 @@ type kind struct {
 	perSSRC bool // writes can be attributed to an SSRC
 	mk      func() (interceptor.Interceptor, error)
 	probe   func(ic interceptor.Interceptor, ssrc uint32, seq uint16) (exists, fresh bool)
+	members []int // chain kinds: ids of the members
 }
 
 type quietFactory struct{}
@@ -200,18 +205,89 @@ var kinds = []*kind{
 	{id: 12, name: "flexfec", remote: false, perSSRC: true, probe: hookProbe, mk: func() (interceptor.Interceptor, error) {
 		return fromFactory(flexfec.NewFecInterceptor())
 	}},
-	{id: 13, name: "chain", remote: true, perSSRC: true, mk: func() (interceptor.Interceptor, error) {
-		a, err := fromFactory(nack.NewGeneratorInterceptor(nack.GeneratorInterval(tick), nack.WithGeneratorLoggerFactory(quietFactory{})))
-		if err != nil {
-			return nil, err
-		}
-		b, err := fromFactory(report.NewReceiverInterceptor(report.ReceiverInterval(tick), report.WithReceiverLoggerFactory(quietFactory{})))
-		if err != nil {
-			return nil, err
-		}
+}
 
-		return interceptor.NewChain([]interceptor.Interceptor{a, b}), nil
-	}},
+// chainIC is a Chain that remembers its members, so that the per-stream state of every member can be probed.
+type chainIC struct {
+	interceptor.Interceptor
+	members []interceptor.Interceptor
+	kinds   []*kind
+}
+
+// chainKind builds the kind of Chain[members...]; all members act on the same direction (remote / local).
+func chainKind(id int, members []int) *kind {
+	name := "chain"
+	if id != 13 {
+		name = "chain"
+		for _, m := range members {
+			name += "+" + kinds[m].name
+		}
+	}
+	ms := append([]int{}, members...)
+
+	return &kind{
+		id: id, name: name, remote: kinds[ms[0]].remote, perSSRC: true, members: ms,
+		mk: func() (interceptor.Interceptor, error) {
+			c := &chainIC{}
+			for _, m := range ms {
+				ic, err := kinds[m].mk()
+				if err != nil {
+					return nil, err
+				}
+				c.members = append(c.members, ic)
+				c.kinds = append(c.kinds, kinds[m])
+			}
+			c.Interceptor = interceptor.NewChain(c.members)
+
+			return c, nil
+		},
+		// an entry exists if any member has one; the state is fresh if every member's is
+		probe: func(ic interceptor.Interceptor, ssrc uint32, seq uint16) (bool, bool) {
+			c, ok := ic.(*chainIC)
+			if !ok {
+				return false, true
+			}
+			exists, fresh := false, true
+			for i, m := range c.members {
+				if c.kinds[i].probe == nil {
+					continue
+				}
+				e, f := c.kinds[i].probe(m, ssrc, seq)
+				exists = exists || e
+				if e && !f {
+					fresh = false
+				}
+			}
+
+			return exists, fresh
+		},
+	}
+}
+
+func init() {
+	// the chain instance of the feature record chain_cfg: Chain[nack generator; report receiver]
+	kinds = append(kinds, chainKind(13, []int{0, 2}))
+}
+
+// members a random chain is built from: lifecycle-bearing interceptors none of whose calls can park
+// (no hand-off channel), all with a state probe; one pool per direction
+var chainPools = [][]int{{0, 2, 6, 7}, {1, 3, 12}}
+
+// members14: the member list of a chain built for this run (the fixed instance 13 belongs to set c11)
+func (k *kind) members14() []int {
+	if k.id >= 14 {
+		return k.members
+	}
+
+	return nil
+}
+
+// ensureChain makes kinds[id] the chain of the given members (replay / corpus of a chain case)
+func ensureChain(id int, members []int) {
+	for len(kinds) <= id {
+		kinds = append(kinds, chainKind(len(kinds), members))
+	}
+	kinds[id] = chainKind(id, members)
 }
 
 func streamInfo(ssrc uint32) *interceptor.StreamInfo {
@@ -601,20 +677,115 @@ func (sc *script) noteLocked(mu *sync.Mutex, s string) {
 
 // ---- gated run: Close while a goroutine of the interceptor is inside a write ----
 
+// gate modes: what happens between "a write of a goroutine of the interceptor is held by the next
+// writer" and "the writer lets it go"
+const (
+	gateClose        = 0 // Close
+	gateUnbindClose  = 1 // Unbind every bound stream, then Close
+	gateDoubleClose  = 2 // Close, and a second Close while the first is still waiting
+	gateUnbindDouble = 3 // Unbind every bound stream, then the two Closes
+	nGateModes       = 4
+)
+
+var gateModeName = []string{"close", "unbind-all-close", "double-close", "unbind-all-double-close"}
+
 type gateResult struct {
-	Special     string `json:"special"`
-	Iid         int    `json:"iid"`
-	Name        string `json:"name"`
-	Entered     bool   `json:"entered"`      // a goroutine of the interceptor was caught inside a write
-	ClosedEarly bool   `json:"closed_early"` // Close returned while that write was still in progress
-	CloseHang   bool   `json:"close_hang"`   // Close did not return after the write completed
-	Panic       string `json:"panic,omitempty"`
+	Special       string `json:"special"`
+	Iid           int    `json:"iid"`
+	Name          string `json:"name"`
+	Mode          int    `json:"mode"`
+	Entered       bool   `json:"entered"`         // a goroutine of the interceptor was caught inside a write
+	ClosedEarly   bool   `json:"closed_early"`    // Close returned while that write was still in progress
+	Close2Early   bool   `json:"close2_early"`    // the second Close returned while that write was still in progress
+	LateWrites    int    `json:"late_writes"`     // writes of goroutines of the interceptor that completed after a Close had returned
+	AliveAtReturn int    `json:"alive_at_return"` // goroutines started by the interceptor that were alive when the first Close returned
+	CloseHang     bool   `json:"close_hang"`      // a Close did not return after the write completed
+	UnbindSlow    bool   `json:"unbind_slow"`     // an Unbind returned only after the writer let the held write go
+	UnbindHang    bool   `json:"unbind_hang"`     // an Unbind never returned
+	Panic         string `json:"panic,omitempty"`
 }
 
-// runGate: bind, make the interceptor want to write, hold its write in the next writer, call Close,
-// see whether Close waits for the goroutine that is writing.
-func runGate(k *kind) *gateResult {
-	res := &gateResult{Special: "gate", Iid: k.id, Name: k.name}
+func (g *gateResult) obs() []int64 {
+	b := func(x bool) int64 {
+		if x {
+			return 1
+		}
+
+		return 0
+	}
+	late := int64(0)
+	if g.LateWrites > 0 {
+		late = 1
+	}
+
+	return []int64{b(g.Entered), b(g.ClosedEarly), b(g.Close2Early), late, b(g.CloseHang), b(g.UnbindHang), b(g.Panic != ""),
+		b(g.AliveAtReturn > 0)}
+}
+
+var gateLabelRe = regexp.MustCompile(`"c11g":"([0-9-]+)"`)
+
+// a frame of the harness' own goroutines (the gated run itself, its helper goroutines, an API call of a
+// script step); closures of the recording writers are named main.(*runner).do.(*runner).rtpWriter.funcN
+// and must not match
+var harnessFrameRe = regexp.MustCompile(`\smain\.(runGate|within|aliveWithLabel|\(\*runner\)\.do\+)`)
+
+// aliveWithLabel counts the goroutines that carry the gated run's pprof label (inherited by every
+// goroutine the interceptor starts) and are not goroutines of the harness itself.
+func aliveWithLabel(label string) int {
+	var buf bytes.Buffer
+	_ = pprof.Lookup("goroutine").WriteTo(&buf, 1)
+	n := 0
+	for _, block := range strings.Split(buf.String(), "\n\n") {
+		m := gateLabelRe.FindStringSubmatch(block)
+		if m == nil || m[1] != label {
+			continue
+		}
+		if os.Getenv("C11_DEBUG_ALIVE") != "" {
+			fmt.Fprintln(os.Stderr, "ALIVE?", block)
+		}
+		if harnessFrameRe.MatchString(block) {
+			continue
+		}
+		c := 1
+		if f := strings.Fields(block); len(f) > 0 {
+			if v, err := strconv.Atoi(f[0]); err == nil {
+				c = v
+			}
+		}
+		n += c
+	}
+
+	return n
+}
+
+// within runs f on its own goroutine and reports whether it returned within d; the channel is closed
+// when f has returned.
+func within(d time.Duration, f func()) (bool, chan struct{}) {
+	done := make(chan struct{})
+	go func() {
+		defer close(done)
+		f()
+	}()
+	select {
+	case <-done:
+		return true, done
+	case <-time.After(d):
+		return false, done
+	}
+}
+
+// runGate: bind, make the interceptor want to write, hold its write in the next writer, then (mode)
+// unbind every stream / Close / Close twice, and see whether every Close waits for the goroutine that
+// is writing.
+func runGate(k *kind, mode int) *gateResult {
+	res := &gateResult{Special: "gate", Iid: k.id, Name: k.name, Mode: mode}
+	label := fmt.Sprintf("%d-%d", k.id, mode)
+	pprof.Do(context.Background(), pprof.Labels("c11g", label), func(context.Context) { runGateLabelled(k, mode, label, res) })
+
+	return res
+}
+
+func runGateLabelled(k *kind, mode int, label string, res *gateResult) {
 	ic, err := k.mk()
 	if err != nil {
 		panic(err)
@@ -622,19 +793,39 @@ func runGate(k *kind) *gateResult {
 	sc := &script{Iid: k.id}
 	r := &runner{k: k, ic: ic, sc: sc, readers: map[uint32]interceptor.RTPReader{}, writers: map[uint32]interceptor.RTPWriter{},
 		seq: map[uint32]uint16{}, retAt: map[int]time.Time{}, entered: make(chan struct{}, 1)}
-	defer func() {
-		if e := recover(); e != nil {
-			res.Panic = fmt.Sprint(e)
+	var pmu sync.Mutex
+	note := func(e any) {
+		pmu.Lock()
+		res.Panic = fmt.Sprint(e)
+		pmu.Unlock()
+	}
+	guarded := func(f func()) func() {
+		return func() {
+			defer func() {
+				if e := recover(); e != nil {
+					note(e)
+				}
+			}()
+			f()
 		}
-	}()
+	}
 	g := make(chan struct{})
 	r.gate.Store(&g)
-	r.do(op{K: "bindw"})
-	r.do(op{K: "bindr"})
-	r.do(op{K: "bind", X: 1})
-	for i := 0; i < 3; i++ {
-		r.do(op{K: "traffic", X: 1})
+	var pending []chan struct{}
+	call := func(o op) {
+		// a traffic call may park behind the held write (hand-off to a loop that is writing): do not wait for it
+		if ok, done := within(50*time.Millisecond, guarded(func() { r.do(o) })); !ok {
+			pending = append(pending, done)
+		}
 	}
+	call(op{K: "bindw"})
+	call(op{K: "bindr"})
+	call(op{K: "bind", X: 1})
+	call(op{K: "bind", X: 2})
+	for i := 0; i < 3; i++ {
+		call(op{K: "traffic", X: 1})
+	}
+	call(op{K: "traffic", X: 2})
 	// a NACK for the last packet written (nack responder: starts a resend goroutine)
 	nackPkt := &rtcp.TransportLayerNack{SenderSSRC: 9, MediaSSRC: 1, Nacks: rtcp.NackPairsFromSequenceNumbers([]uint16{r.seq[1] - 2})}
 	raw, _ := nackPkt.Marshal()
@@ -643,38 +834,108 @@ func runGate(k *kind) *gateResult {
 	rd := r.rtcpRd
 	r.mu.Unlock()
 	if rd != nil {
-		_, _, _ = rd.Read(make([]byte, 1500), interceptor.Attributes{})
+		if ok, done := within(50*time.Millisecond, guarded(func() { _, _, _ = rd.Read(make([]byte, 1500), interceptor.Attributes{}) })); !ok {
+			pending = append(pending, done)
+		}
 	}
 	select {
 	case <-r.entered:
 		res.Entered = true
 	case <-time.After(150 * time.Millisecond):
 	}
-	closed := make(chan struct{})
-	go func() {
-		defer func() {
-			if e := recover(); e != nil {
-				res.Panic = fmt.Sprint(e)
+	var unbinds []chan struct{}
+	if mode == gateUnbindClose || mode == gateUnbindDouble {
+		for x := uint32(1); x <= 2; x++ {
+			ok, done := within(40*time.Millisecond, guarded(func() { r.do(op{K: "unbind", X: x}) }))
+			if !ok {
+				res.UnbindSlow = true
 			}
-			close(closed)
-		}()
-		_ = ic.Close()
-	}()
+			unbinds = append(unbinds, done)
+		}
+	}
+	nClose := 1
+	if mode == gateDoubleClose || mode == gateUnbindDouble {
+		nClose = 2
+	}
+	closed := make([]chan struct{}, nClose)
+	var retMu sync.Mutex
+	var firstRet time.Time
+	alive := -1
+	for c := 0; c < nClose; c++ {
+		closed[c] = make(chan struct{})
+		go func(c int) {
+			defer close(closed[c])
+			guarded(func() { _ = ic.Close() })()
+			now := time.Now()
+			retMu.Lock()
+			first := firstRet.IsZero()
+			if first {
+				firstRet = now
+			}
+			retMu.Unlock()
+			if first {
+				n := aliveWithLabel(label)
+				retMu.Lock()
+				alive = n
+				retMu.Unlock()
+			}
+		}(c)
+		if c+1 < nClose {
+			time.Sleep(5 * time.Millisecond) // the first Close is inside its wait (or has returned) when the second starts
+		}
+	}
 	if res.Entered {
-		select {
-		case <-closed:
-			res.ClosedEarly = true
-		case <-time.After(40 * time.Millisecond):
+		for c := 0; c < nClose; c++ {
+			select {
+			case <-closed[c]:
+				if c == 0 {
+					res.ClosedEarly = true
+				} else {
+					res.Close2Early = true
+				}
+			case <-time.After(40 * time.Millisecond):
+			}
 		}
 	}
 	close(g)
-	select {
-	case <-closed:
-	case <-time.After(watchdog):
-		res.CloseHang = true
+	deadline := time.After(watchdog)
+	for c := 0; c < nClose; c++ {
+		select {
+		case <-closed[c]:
+		case <-deadline:
+			res.CloseHang = true
+		}
 	}
-
-	return res
+	for _, u := range unbinds {
+		select {
+		case <-u:
+		case <-deadline:
+			res.UnbindHang = true
+		}
+	}
+	for _, p := range pending {
+		select {
+		case <-p:
+		case <-deadline:
+			res.CloseHang = true // a call parked behind the held write was not released by Close
+		}
+	}
+	time.Sleep(closeWin)
+	retMu.Lock()
+	fr := firstRet
+	if alive > 0 {
+		res.AliveAtReturn = alive
+	}
+	retMu.Unlock()
+	if !fr.IsZero() {
+		r.mu.Lock()
+		for _, w := range r.writes {
+			if !w.sync && w.t.After(fr) {
+				res.LateWrites++
+			}
+		}
+		r.mu.Unlock()
+	}
 }
 
 // ---- Close from a second goroutine while two goroutines keep reading/writing ----
@@ -851,6 +1112,15 @@ func worker(wg *sync.WaitGroup, ch chan int, scs []*script) {
 
 // ---- generation ----
 
+var failingWriterScripts = [][]op{
+	{{K: "bindw"}, {K: "bindr"}, {K: "bind", X: 1}, {K: "traffic", X: 1}, {K: "traffic", X: 1}, {K: "traffic", X: 1},
+		{K: "traffic", X: 1}, {K: "traffic", X: 1}, {K: "traffic", X: 1}},
+	{{K: "bind", X: 1}, {K: "bind", X: 2}, {K: "bindw"}, {K: "bindr"}, {K: "traffic", X: 1}, {K: "traffic", X: 2},
+		{K: "rtcp", X: 1}, {K: "traffic", X: 1}, {K: "unbind", X: 1}, {K: "traffic", X: 2}, {K: "traffic", X: 2}},
+	{{K: "bindw"}, {K: "bind", X: 1}, {K: "traffic", X: 1}, {K: "traffic", X: 1}, {K: "unbind", X: 1}, {K: "bind", X: 1},
+		{K: "traffic", X: 1}, {K: "traffic", X: 1}, {K: "traffic", X: 1}},
+}
+
 func alphabet(nSSRC int) []op {
 	a := []op{{K: "bindw"}, {K: "bindr"}, {K: "close"}}
 	for x := 1; x <= nSSRC; x++ {
@@ -934,6 +1204,18 @@ func (sc *script) toCase(buckets ...string) cq.Case {
 		b = append(b, "failing-writer")
 	}
 
+	if len(sc.Members) > 0 {
+		ms := make([]int64, len(sc.Members))
+		for i, m := range sc.Members {
+			ms[i] = int64(m)
+		}
+
+		return cq.Case{
+			Coq: cq.T(cq.Z(int64(sc.Iid)), cq.LZ(ms), cq.Z(int64(sc.Mask)), cq.L(ops), cq.L(obs), cq.Z(int64(sc.Leak))),
+			JSON: sc, Buckets: append(b, "random-chain"), Trivial: len(sc.Ops) < 2,
+		}
+	}
+
 	return cq.Case{
 		Coq:     cq.T(cq.Z(int64(sc.Iid)), cq.Z(int64(sc.Mask)), cq.L(ops), cq.L(obs), cq.Z(int64(sc.Leak))),
 		JSON:    sc,
@@ -978,8 +1260,8 @@ func main() {
 	o := cq.ParseFlags()
 	rng := o.Rand()
 	set := &cq.Set{
-		Name: "c11", Import: "IV.Check.C11Check", CaseType: "c11_case",
-		Checks: []string{"c11_mismatches", "c11_spec_failures"},
+		Name: "c11", Import: "IV.Check.C11bCheck", CaseType: "c11_case",
+		Checks: []string{"c11_mismatches", "c11_spec_failures", "c11_open_strand_failures"},
 	}
 	var scs []*script
 	var tags [][]string
@@ -987,16 +1269,16 @@ func main() {
 		if !valid(ops) {
 			return
 		}
-		scs = append(scs, &script{Iid: iid, Name: kinds[iid].name, Ops: ops, FailW: failw})
+		scs = append(scs, &script{Iid: iid, Name: kinds[iid].name, Ops: ops, FailW: failw, Members: kinds[iid].members14()})
 		tags = append(tags, tag)
 	}
-	replayGate, replayConc := -1, -1
+	replayGate, replayConc, replayGateMode := -1, -1, 0
 	if o.Replay != "" {
 		var g gateResult
 		cq.LoadReplay(o.Replay, &g)
 		switch g.Special {
 		case "gate":
-			replayGate = g.Iid
+			replayGate, replayGateMode = g.Iid, g.Mode
 			add(g.Iid, []op{{K: "bindw"}}, 0, "replay") // keeps the case set non-empty
 		case "concurrent-close":
 			replayConc = g.Iid
@@ -1004,18 +1286,41 @@ func main() {
 		default:
 			var sc script
 			cq.LoadReplay(o.Replay, &sc)
+			if len(sc.Members) > 0 {
+				ensureChain(sc.Iid, sc.Members)
+			}
 			// schedule-dependent failures do not show on every run: replay the script several times
 			for i := 0; i < 12; i++ {
 				add(sc.Iid, sc.Ops, sc.FailW, "replay")
 			}
 		}
+	} else if os.Getenv("C11_ONLY") != "" {
+		// debugging aid: only the gated / concurrent runs (one script keeps the case set non-empty)
+		add(0, []op{{K: "bindw"}, {K: "bind", X: 1}}, 0, "debug")
 	} else {
 		for _, f := range o.CorpusFiles() {
 			var sc script
 			cq.LoadReplay(f, &sc)
-			if sc.Name != "" && len(sc.Ops) > 0 {
+			if sc.Name != "" && len(sc.Ops) > 0 && len(sc.Members) == 0 {
 				add(sc.Iid, sc.Ops, sc.FailW, "corpus")
 			}
+		}
+		// 3 random chains of lifecycle-bearing members (at least one per direction), ids 14..16
+		for c := 0; c < 3; c++ {
+			pool := chainPools[c%2]
+			if c == 2 {
+				pool = chainPools[rng.Intn(2)]
+			}
+			n := 2 + rng.Intn(2)
+			if n > len(pool) {
+				n = len(pool)
+			}
+			perm := rng.Perm(len(pool))
+			ms := make([]int, n)
+			for i := range ms {
+				ms[i] = pool[perm[i]]
+			}
+			kinds = append(kinds, chainKind(14+c, ms))
 		}
 		depth := 2
 		if o.Tier == "thorough" {
@@ -1029,6 +1334,9 @@ func main() {
 		nRand := o.Scale(120, 1500)
 		for _, k := range kinds {
 			for _, s := range short {
+				if k.id >= 14 {
+					break // the random chains get the warm / reopened / failing-writer / random scripts only
+				}
 				add(k.id, s, 0, "exhaustive")
 			}
 			for _, s := range suffix {
@@ -1039,6 +1347,13 @@ func main() {
 			// use after Close: bind and send again, then one more call
 			for _, o1 := range alphabet(2) {
 				add(k.id, append(append([]op{}, reopened...), o1), 0, "reopened")
+			}
+			// every write to the next writer fails / every 2nd / every 3rd: a loop that gives up after a write
+			// error stops consuming its hand-off channel and strands the next Read/Write
+			for failw := 1; failw <= 3; failw++ {
+				for _, s := range failingWriterScripts {
+					add(k.id, s, failw, "failing-writer-fixed")
+				}
 			}
 			for i := 0; i < nRand; i++ {
 				n := 4 + rng.Intn(4)
@@ -1070,8 +1385,16 @@ func main() {
 	}
 	t0 := time.Now()
 	runAll(scs)
+	cset := &cq.Set{
+		Name: "c11c", Import: "IV.Check.C11bCheck", CaseType: "c11c_case",
+		Checks: []string{"c11c_mismatches", "c11c_spec_failures"},
+	}
 	for i, sc := range scs {
-		set.Cases = append(set.Cases, sc.toCase(tags[i]...))
+		if len(sc.Members) > 0 {
+			cset.Cases = append(cset.Cases, sc.toCase(tags[i]...))
+		} else {
+			set.Cases = append(set.Cases, sc.toCase(tags[i]...))
+		}
 	}
 	extra := map[string]interface{}{
 		"scripts": len(scs), "harness_wall_s": time.Since(t0).Seconds(),
@@ -1094,34 +1417,67 @@ func main() {
 			if replayGate >= 0 && k.id != replayGate {
 				continue
 			}
-			gw.Add(1)
-			go func(k *kind) {
-				defer gw.Done()
-				g := runGate(k)
-				gmu.Lock()
-				gates = append(gates, g)
-				gmu.Unlock()
-			}(k)
+			for mode := 0; mode < nGateModes; mode++ {
+				if replayGate >= 0 && mode != replayGateMode {
+					continue
+				}
+				gw.Add(1)
+				go func(k *kind, mode int) {
+					defer gw.Done()
+					g := runGate(k, mode)
+					gmu.Lock()
+					gates = append(gates, g)
+					gmu.Unlock()
+				}(k, mode)
+			}
 		}
 		gw.Wait()
+		sort.Slice(gates, func(i, j int) bool {
+			if gates[i].Iid != gates[j].Iid {
+				return gates[i].Iid < gates[j].Iid
+			}
+
+			return gates[i].Mode < gates[j].Mode
+		})
 	}
 	nEntered := 0
+	aliveAtReturn := map[string]int{}
+	unbindSlow := map[string]bool{}
 	for _, g := range gates {
 		if g.Entered {
 			nEntered++
 		}
+		if g.AliveAtReturn > 0 {
+			aliveAtReturn[g.Name+"/"+gateModeName[g.Mode]] = g.AliveAtReturn
+		}
+		if g.UnbindSlow {
+			unbindSlow[g.Name] = true
+		}
+		what := "-" + gateModeName[g.Mode]
+		if g.Mode == gateClose {
+			what = "-close"
+		}
 		switch {
 		case g.Panic != "":
-			fails = append(fails, cq.ImplFailure{Kind: g.Name + "-gated-close-panic", Detail: g.Panic, Case: g})
+			fails = append(fails, cq.ImplFailure{Kind: g.Name + "-gated" + what + "-panic", Detail: g.Panic, Case: g})
 		case g.ClosedEarly:
-			fails = append(fails, cq.ImplFailure{Kind: g.Name + "-close-returns-while-writing",
-				Detail: "Close returned while a goroutine started by the interceptor was still inside a write to the next writer", Case: g})
+			fails = append(fails, cq.ImplFailure{Kind: g.Name + what + "-returns-while-writing",
+				Detail: "Close returned while a goroutine started by the interceptor was still inside a write to the next writer (" +
+					gateModeName[g.Mode] + "); that write completed after Close had returned", Case: g})
+		case g.Close2Early:
+			fails = append(fails, cq.ImplFailure{Kind: g.Name + what + "-second-close-returns-while-writing",
+				Detail: "a second Close, called while the first was still waiting, returned while a goroutine started by the interceptor was inside a write", Case: g})
 		case g.CloseHang:
-			fails = append(fails, cq.ImplFailure{Kind: g.Name + "-gated-close-hang", Detail: "Close did not return after the held write completed", Case: g})
+			fails = append(fails, cq.ImplFailure{Kind: g.Name + "-gated" + what + "-hang", Detail: "Close (or a call parked behind the held write) did not return after the held write completed", Case: g})
+		case g.UnbindHang:
+			fails = append(fails, cq.ImplFailure{Kind: g.Name + "-gated-unbind-hang", Detail: "Unbind did not return after the held write completed", Case: g})
+		case g.LateWrites > 0:
+			fails = append(fails, cq.ImplFailure{Kind: g.Name + "-gated" + what + "-write-after-close",
+				Detail: fmt.Sprintf("%d write(s) of goroutines of the interceptor completed after a Close had returned", g.LateWrites), Case: g})
 		}
 	}
 	nConc := 0
-	if o.Replay == "" || replayConc >= 0 {
+	if (o.Replay == "" && os.Getenv("C11_ONLY") != "gates") || replayConc >= 0 {
 		per := o.Scale(4, 150)
 		var cw sync.WaitGroup
 		var cmu sync.Mutex
@@ -1161,5 +1517,35 @@ func main() {
 	extra["concurrent_close_runs"] = nConc
 	extra["gated_close_runs"] = len(gates)
 	extra["gated_close_runs_with_a_write_in_progress"] = nEntered
-	cq.Write(o, "a script of at least two calls (a final Close is always appended)", []*cq.Set{set}, extra, fails)
+	extra["gated_goroutines_alive_when_close_returned"] = aliveAtReturn
+	extra["gated_unbind_waits_for_the_held_write"] = unbindSlow
+	sets := []*cq.Set{set}
+	if len(cset.Cases) > 0 {
+		sets = append(sets, cset)
+	}
+	chains := map[string][]int{}
+	for _, k := range kinds {
+		if k.id >= 14 {
+			chains[k.name] = k.members
+		}
+	}
+	extra["random_chains"] = chains
+	if len(gates) > 0 {
+		gset := &cq.Set{
+			Name: "c11g", Import: "IV.Check.C11bCheck", CaseType: "c11g_case",
+			Checks: []string{"c11g_mismatches", "c11g_spec_failures"},
+		}
+		for _, g := range gates {
+			b := []string{"gated", "gated-" + gateModeName[g.Mode], g.Name}
+			if g.Entered {
+				b = append(b, "gated-write-in-progress")
+			}
+			gset.Cases = append(gset.Cases, cq.Case{
+				Coq:  cq.T(cq.Z(int64(g.Iid)), cq.Z(int64(g.Mode)), cq.LZ(g.obs())),
+				JSON: g, Buckets: b, Trivial: !g.Entered,
+			})
+		}
+		sets = append(sets, gset)
+	}
+	cq.Write(o, "a script of at least two calls (a final Close is always appended); a gated run with a write in progress", sets, extra, fails)
 }
